@@ -148,6 +148,11 @@ class LazyList:
                 next(self)
             except StopIteration:
                 break
+            except TypeError as error:
+                # list(), map() and friends ask for the length as a hint and
+                # treat a TypeError as "has no length": the error of the
+                # item being generated would vanish and the list end there
+                raise RuntimeError(f"TypeError: {error}") from error
         return len(self.generated)
 
     def __le__(self, other):
